@@ -298,3 +298,5 @@ def run(tier, seed):
 
 
 RULE += (' Michaelwicz in every dimension of {1,3,4,6,7,8,9,11,12,20} that its constructor accepts; evaluation sequences also with a caller that only keeps the returned lists.')
+
+RULE += (' Beyond small: dimensions 127..129, 255..257, 513, 1000 (optimum, neighbourhood along the axes at the ends, the middle and the powers of two, centre); Perm only up to 100 (its coefficients alone exceed the float range beyond).')
